@@ -277,7 +277,7 @@ def run(ctx):
             continue
         b = p.outer_body
         extra = []
-        for (d, pol, s) in builders.effective_guards(prog, b, p.outer_bb):
+        for (d, pol, s) in builders.effective_guards(prog, b, p.outer_bb, closure=getattr(p, 'closure', None)):
             if d.k == "call" and d.a[0].endswith("get_suggestion_include_english") and pol is True:
                 continue
             if d.k == "call" and (d.a[0].endswith("::ne") or d.a[0].endswith("::eq")):
@@ -542,11 +542,11 @@ def run(ctx):
     for p in events:
         if p.item is None or classify_source(prog, p) != "english":
             continue
-        key = "english-unchecked" if p.kind == "push" else "english@%s" % p.fn.split("::")[-1]
+        key = "english-unchecked" if p.kind in ("push", "extend") else "english@%s" % p.fn.split("::")[-1]
         if p.kind == "push_checked":
             r4.ok(key, "the English candidate enters through the checked push")
             continue
-        gs_ = builders.effective_guards(prog, p.outer_body, p.outer_bb)
+        gs_ = builders.effective_guards(prog, p.outer_body, p.outer_bb, closure=getattr(p, 'closure', None))
         compared = any(d.k == "call" and (d.a[0].endswith("::contains") or d.a[0].endswith("Iterator>::any") or d.a[0].endswith("::position"))
                        and any(self_path(x) is not None and self_path(x)[:1] == (_R["rank_list"],) for x in d.walk()) for (d, pol, s_) in gs_)
         if compared:
@@ -558,11 +558,11 @@ def run(ctx):
     for p in events:
         if p.item is None or classify_source(prog, p) != "emoticon-literal":
             continue
-        key = "emoticon-literal-unchecked" if p.kind == "push" else "emoticon-literal@%s" % p.fn.split("::")[-1]
+        key = "emoticon-literal-unchecked" if p.kind in ("push", "extend") else "emoticon-literal@%s" % p.fn.split("::")[-1]
         if p.kind == "push_checked":
             r4.ok(key, "the emoticon's literal text enters through the checked push")
             continue
-        gs_ = builders.effective_guards(prog, p.outer_body, p.outer_bb)
+        gs_ = builders.effective_guards(prog, p.outer_body, p.outer_bb, closure=getattr(p, 'closure', None))
         compared = any(d.k == "call" and (d.a[0].endswith("::contains") or d.a[0].endswith("Iterator>::any") or d.a[0].endswith("::position"))
                        and any(self_path(x) is not None and self_path(x)[:1] == (_R["rank_list"],) for x in d.walk()) for (d, pol, s_) in gs_)
         if compared:
@@ -637,10 +637,17 @@ def classify_source(prog, p):
                 out = self_path(body.expr_operand(t["args"][2]))
                 if out == sp:
                     return "transliteration"
+    if p.closure and pe.k != "arg":
+        # built inside a closure (`cond.then(|| Rank::last_ranked(term.to_string(), 3))`): the captured value is the creator's
+        from engine.analyses import subst_upvars as _su2, closure_creation as _cc2
+        pe2 = peel_conv(_su2(prog, p.closure, item))
+        cc2 = _cc2(prog, p.closure)
+        if pe2.k == "arg" and cc2:
+            pe, body = pe2, cc2[0]
     if pe.k == "arg" and body.locals[pe.a[0]]["ty"] == "&str":
         rv = strip_refs(p.rankval) if p.rankval is not None else None
         # two raw-text pushes exist: the emoticon literal (inside the emoticon arm) and the English candidate
-        g = builders.effective_guards(prog, p.outer_body, p.outer_bb)
+        g = builders.effective_guards(prog, p.outer_body, p.outer_bb, closure=getattr(p, 'closure', None))
         in_emoticon_arm = any(d.k == "discr" and contains_call(d, lambda n: n.endswith("get_emoji_by_emoticon")) for (d, pol, s) in g)
         return "emoticon-literal" if in_emoticon_arm else "english"
     return None
